@@ -28,21 +28,31 @@ from mc.fakes import FakeResponse, patched_http
 ID = 'C26'
 LEVEL = 'fault_enumeration'
 LEVEL_TEXT = ('the retry loop is a finite-state machine over (attempt number, class of the last answer); the complete answer tree up to the attempt '
-              'cap is enumerated for every entry layer and body size, so every reachable behaviour of the loop over the answer alphabet is decided '
-              'against the statement; sessions of two and three requests on the same client objects show that this machine has no memory')
+              'cap is enumerated for every entry layer (incl. the streaming monitor queries), body size and single keyword option of a request, and the '
+              'whole product of keyword options over a reduced alphabet, so every reachable behaviour of the loop over the answer alphabet is decided '
+              'against the statement, which mentions no option; sessions of two and three requests on the same client objects show that this machine '
+              'has no memory')
 RULE = ('complete tree of node answers: every sequence over the 17-answer alphabet that the real retry loop can consume (it asks for another '
-        'answer or finishes), per (entry layer, method, timeout, body padding); a sequence the statement calls finished but the code continues is '
-        'closed with one success answer and reported.  Sessions: every ordered pair (triple) of statement-complete sequences over a reduced '
-        'alphabet issued on the same client objects, each request judged separately.  non-trivial = distinct (dimension, sequence) with >=1 '
-        'retry-eligible answer (sessions: in a request after the first).  Leaves compared with the statement: #requests, delay list, identical '
-        'request arguments, returned JSON / raised error of the last response')
-BOUND = {'quick': 'all answer sequences up to the attempt cap (depth<=7), GET, entries {request, verb, multi, query, query+params, _verb}, body padding '
-                  '{0, 1200} chars on both sides as complete trees and one big answer (padding 5000, 70000) at every position of a sequence after 0..5 small '
-                  'temporary errors with every continuation over ok/t500/perm500/e404 (request and query entries); sessions: 253x253 pairs (alphabet ok/t500/preval/perm500/e404) on one '
-                  'RpcNode, 19x19 pairs x 4 entry combinations incl. RpcMultiNode and one reused query object, 19^3 triples x 2 entry patterns',
-         'thorough': 'same trees x {GET,POST,PUT,DELETE} x timeout in {None,5} for request/verb, multi/_verb x 4 methods, complete padded trees {300,1200,4200,17000}; one '
-                     'big answer per sequence padded {300,5000,70000} x 5 entries and 1100000 x {request}; pair sessions 253x253 for 5 entry patterns '
-                     '(one with bodies padded 1200), triples 19^3 x 4 entry patterns'}
+        'answer or finishes), per (entry layer, method, timeout, body padding, keyword options); a sequence the statement calls finished but the code '
+        'continues is closed with one success answer and reported.  Keyword options: every combination of stream {absent,True,False} x params '
+        '{absent,{},non-empty} x json body x node headers x allow_redirects that the entry layer has keywords for, x method x timeout, each with every '
+        'statement-complete sequence over the reduced alphabet ok/t500/preval/perm500/e404.  Sessions: every ordered pair (triple) of statement-complete '
+        'sequences over a reduced alphabet issued on the same client objects (also alternating streamed / plain requests), each request judged '
+        'separately.  non-trivial = distinct (dimension, sequence) with >=1 retry-eligible answer (sessions: in a request after the first).  Leaves '
+        'compared with the statement: #requests, delay list, identical request arguments in every attempt, returned JSON (streaming layers: JSON lines) / '
+        'raised error of the last response')
+BOUND = {'quick': 'all answer sequences up to the attempt cap (depth<=7) as complete trees: GET x entries {request, verb, multi, query, query+params, _verb, monitor, '
+                  'peers log(monitor=True)}; request x {stream=True, stream=False, params, headers, POST+json, timeout=5, POST+timeout+all options}; multi x stream=True; '
+                  'body padding {0, 1200} chars on both sides (request, query); one big answer (padding 5000, 70000) at every position of a sequence after 0..5 small '
+                  'temporary errors with every continuation over ok/t500/perm500/e404 (request, query; 5000: monitor, request+stream); keyword options: the full product '
+                  '(72 combinations for request, 36 multi, 6/12 verbs, 6 monitor, 2 others) x methods x timeout {None,5} x 253 sequences; sessions: 253x253 pairs '
+                  '(alphabet ok/t500/preval/perm500/e404) on one RpcNode, 19x19 pairs x 10 entry/option patterns incl. RpcMultiNode, one reused query object, monitor '
+                  'then query, streamed then plain request; 19^3 triples x 4 patterns',
+         'thorough': 'same trees x {GET,POST,PUT,DELETE} x timeout in {None,5} for request/verb, multi/_verb x 4 methods, complete padded trees {300,1200,4200,17000}; every '
+                     'single keyword option x {GET,POST} and all options x 4 methods for request, 4 option sets for multi, 5 each for verb/_verb, 3 for monitor, headers for '
+                     'peers log/query; padded 1200 trees for monitor, peers log, request+stream; one big answer per sequence padded {300,5000,70000} x 7 entries and '
+                     'request+stream, 1100000 x {request}; keyword option product as in quick; pair sessions 253x253 for 10 entry/option patterns (one with bodies padded '
+                     '1200), 19x19 for 5 more, triples 19^3 x 9 patterns'}
 ASSUMPTIONS = ['requests.request and time.sleep (as imported by pytezos.rpc.node) are the only environment seams',
                'a JSON error list that contains a proto.* entry is not transient whatever its other entries are (the statement: "errors are temporary '
                'and not protocol errors"); answers mixing a proto.* error with the prevalidator TEXT marker, or non-protocol temporary with '
@@ -430,48 +440,76 @@ def shape_sequences(pad, k):
     return out
 
 
+ALLOPTS = 'stream=1,params=1,json=1,headers=1,other=0'
 TREES = {
-    'quick': [('GET', None, e, 0) for e in ENTRIES] + [('GET', None, e, 1200) for e in ('request', 'query')],
-    'thorough': ([(m, t, e, 0) for e in ('request', 'verb') for m in ENTRIES[e][3] for t in (None, 5)]
-                 + [(m, None, e, 0) for e in ('multi', '_verb') for m in ENTRIES[e][3]] + [('GET', 5, 'multi', 0)]
-                 + [('GET', None, e, 0) for e in ('query', 'queryp')]
-                 + [('GET', None, e, p) for p in (300, 1200, 4200) for e in ('request', 'query')]
-                 + [('GET', None, 'request', 17000), ('POST', 5, 'verb', 1200)]),
+    'quick': [('GET', None, e, 0, '') for e in ENTRIES] + [('GET', None, e, 1200, '') for e in ('request', 'query')]
+             + [('GET', None, 'request', 0, o) for o in ('stream=1', 'stream=0', 'params=1', 'headers=1')]
+             + [('POST', None, 'request', 0, 'json=1'), ('GET', 5, 'request', 0, ''), ('POST', 5, 'request', 0, ALLOPTS), ('GET', None, 'multi', 0, 'stream=1')],
+    'thorough': ([(m, t, e, 0, '') for e in ('request', 'verb') for m in ENTRIES[e][3] for t in (None, 5)]
+                 + [(m, None, e, 0, '') for e in ('multi', '_verb') for m in ENTRIES[e][3]] + [('GET', 5, 'multi', 0, '')]
+                 + [('GET', None, e, 0, '') for e in ('query', 'queryp', 'monitor', 'peerlog')]
+                 + [('GET', None, e, p, '') for p in (300, 1200, 4200) for e in ('request', 'query')]
+                 + [('GET', None, 'request', 17000, ''), ('POST', 5, 'verb', 1200, '')]
+                 # every single keyword option as a complete tree, and all of them together
+                 + [(m, None, 'request', 0, o) for m in ('GET', 'POST') for o in option_keys('request', m, upto=1) if o]
+                 + [(m, 5, 'request', 0, ALLOPTS) for m in ENTRIES['request'][3]]
+                 + [('GET', None, 'multi', 0, o) for o in ('stream=1', 'stream=0', 'params=1', 'stream=1,params=1,json=1,other=0')]
+                 + [('GET', None, e, 0, o) for e in ('verb', '_verb') for o in ('params=1', 'params=0', 'headers=1')]
+                 + [('POST', None, e, 0, o) for e in ('verb', '_verb') for o in ('json=1', 'params=1,json=1,headers=1')]
+                 + [('GET', None, 'monitor', 0, o) for o in ('params=1', 'headers=1', 'params=1,headers=1')]
+                 + [('GET', None, e, 0, 'headers=1') for e in ('peerlog', 'query', 'queryp')]
+                 + [('GET', None, e, 1200, o) for e, o in (('monitor', ''), ('peerlog', ''), ('request', 'stream=1'))]),
 }
-# one big answer per sequence, for body sizes whose complete tree would cost minutes: (entry, padding)
+# one big answer per sequence, for body sizes whose complete tree would cost minutes: (entry, padding, options)
 SHAPES = {
-    'quick': [(e, p) for p in (5000, 70000) for e in ('request', 'query')],
-    'thorough': [(e, p) for p in (300, 5000, 70000) for e in ('request', 'verb', 'multi', 'query', '_verb')] + [('request', 1100000)],
+    'quick': [(e, p, '') for p in (5000, 70000) for e in ('request', 'query')] + [('monitor', 5000, ''), ('request', 5000, 'stream=1')],
+    'thorough': ([(e, p, '') for p in (300, 5000, 70000) for e in ('request', 'verb', 'multi', 'query', '_verb', 'monitor', 'peerlog')]
+                 + [('request', 1100000, '')] + [('request', p, 'stream=1') for p in (300, 5000, 70000)]),
 }
 PAIR_CHUNKS = 32
-# (kind, alphabet, entry pattern, pad): request i of a session goes through pattern[i % len(pattern)]
+OPT_CHUNKS = 8
+# (kind, alphabet, entry pattern, pad, option pattern): request i of a session goes through entry pattern[i % len(pattern)] with options
+# option pattern[i % len(option pattern)]
 SESSIONS = {
-    'quick': [('pairs', 'R2', ('request',), 0)]
-             + [('pairs', 'R1', pat, 0) for pat in (('query',), ('request', 'query'), ('query', 'verb'), ('multi',))]
-             + [('triples', 'R1', pat, 0) for pat in (('request',), ('query', 'request'))],
-    'thorough': [('pairs', 'R2', pat, p) for pat, p in ((('request',), 0), (('query',), 0), (('request', 'query'), 1200), (('multi',), 0), (('_verb', 'verb'), 0))]
-                + [('triples', 'R1', pat, 0) for pat in (('request',), ('query', 'request'), ('multi',), ('verb', '_verb', 'queryp'))],
+    'quick': [('pairs', 'R2', ('request',), 0, ('',))]
+             + [('pairs', 'R1', pat, 0, ('',)) for pat in (('query',), ('request', 'query'), ('query', 'verb'), ('multi',), ('monitor', 'query'), ('request', 'peerlog'))]
+             + [('pairs', 'R1', ('request',), 0, o) for o in (('stream=1', ''), ('', 'stream=1'), ('stream=1',), ('headers=1', 'params=1'))]
+             + [('triples', 'R1', pat, 0, ('',)) for pat in (('request',), ('query', 'request'))]
+             + [('triples', 'R1', ('request',), 0, ('stream=1', '')), ('triples', 'R1', ('monitor', 'request', 'query'), 0, ('',))],
+    'thorough': [('pairs', 'R2', pat, p, ('',)) for pat, p in ((('request',), 0), (('query',), 0), (('request', 'query'), 1200), (('multi',), 0), (('_verb', 'verb'), 0),
+                                                              (('monitor', 'query'), 0), (('request', 'peerlog'), 0))]
+                + [('pairs', 'R2', ('request',), 0, o) for o in (('stream=1', ''), ('', 'stream=1'), ('stream=1',))]
+                + [('pairs', 'R1', (e,), 0, o) for e in ('request', 'multi') for o in (('stream=0', 'stream=1'), ('params=1,json=1', 'stream=1,other=0'))]
+                + [('pairs', 'R1', ('request',), 0, ('headers=1', 'params=1'))]
+                + [('triples', 'R1', pat, 0, ('',)) for pat in (('request',), ('query', 'request'), ('multi',), ('verb', '_verb', 'queryp'), ('monitor', 'request', 'query'))]
+                + [('triples', 'R1', (e,), 0, o) for e in ('request', 'multi') for o in (('stream=1', ''), ('', 'stream=1', 'params=1'))],
 }
+# the product of all keyword options an entry layer accepts x methods x timeouts, over the session alphabet R2
+OPTION_ENTRIES = list(ENTRIES)
 
 
 def shards(tier, seed):
     out = [('tree', dims, first) for dims in TREES[tier] for first in NAMES]
-    out += [('shape', e, p, k) for e, p in SHAPES[tier] for k in range(CAP)]
-    for kind, alpha, pat, pad in SESSIONS[tier]:
+    out += [('shape', e, p, k, o) for e, p, o in SHAPES[tier] for k in range(CAP)]
+    for kind, alpha, pat, pad, opat in SESSIONS[tier]:
         n = PAIR_CHUNKS if alpha == 'R2' else 4
-        out += [('session', kind, alpha, pat, pad, k, n) for k in range(n)]
+        out += [('session', kind, alpha, pat, pad, k, n, opat) for k in range(n)]
+    for e in OPTION_ENTRIES:
+        for m in ENTRIES[e][3]:
+            n = OPT_CHUNKS if len(option_keys(e, m)) >= 4 * OPT_CHUNKS else 1
+            out += [('options', e, m, t, k, n) for t in ((None, 5) if ENTRIES[e][1] else (None,)) for k in range(n)]
     return out
 
 
-def run_sessions(sessions, pat, pad, r, label):
+def run_sessions(sessions, pat, pad, r, label, method='GET', timeout=None, opat=('',)):
     last = None
     for session in sessions:
-        vs, obss = check_session(session, pat, 'GET', None, pad)
+        vs, obss = check_session(session, pat, method, timeout, pad, opat)
         r.ev()
         r.traces += 1
-        case = {'session': session, 'entries': list(pat), 'method': 'GET', 'timeout': None, 'pad': pad}
+        case = {'session': session, 'entries': list(pat), 'method': method, 'timeout': timeout, 'pad': pad, 'opts': list(opat)}
         if any(transient(a) for q in session[min(1, len(session) - 1):] for a in q):
-            r.nt((label, tuple(map(tuple, session)), pat, pad))
+            r.nt((label, tuple(map(tuple, session)), pat, pad, method, timeout, opat))
         o = obss[-1]
         r.out(f'{label}: {len(o["calls"])} requests -> {o["result"][0]}')
         for d, detail in vs:
@@ -488,24 +526,29 @@ def run_shard(spec, tier):
         explore([first], tuple(dims), r)
         r.sample(r._last)
     elif spec[0] == 'shape':
-        _, entry, pad, k = spec
-        run_sessions(([q] for q in shape_sequences(pad, k)), (entry,), 0, r, 'one big answer')
+        _, entry, pad, k, o = spec
+        run_sessions(([q] for q in shape_sequences(pad, k)), (entry,), 0, r, 'one big answer', opat=(o,))
+    elif spec[0] == 'options':
+        _, entry, method, timeout, k, n = spec
+        ref = reference_tree(R2)
+        for o in option_keys(entry, method)[k::n]:
+            run_sessions(([q] for q in ref), (entry,), 0, r, 'keyword options', method, timeout, (o,))
     else:
-        _, kind, alpha, pat, pad, k, n = spec
+        _, kind, alpha, pat, pad, k, n, opat = spec
         ref = reference_tree(R2 if alpha == 'R2' else R1)
         # the history: every first request of this chunk, followed by every second (and third) request
         run_sessions(([h, s] + ([u] if u else []) for h in ref[k::n] for s in ref for u in (ref if kind == 'triples' else [None])),
-                     pat, pad, r, f'request {3 if kind == "triples" else 2} of a session')
+                     pat, pad, r, f'request {3 if kind == "triples" else 2} of a session', opat=opat)
     return r
 
 
 def replay(case):
     method, timeout, pad = case.get('method', 'GET'), case.get('timeout'), case.get('pad', 0)
     if 'session' in case:
-        return check_session([list(s) for s in case['session']], list(case['entries']), method, timeout, pad)[0]
+        return check_session([list(s) for s in case['session']], list(case['entries']), method, timeout, pad, case.get('opts') or [''])[0]
     seq = list(case['seq'])
     try:
-        return check(seq, method, timeout, case.get('entry', 'request'), pad)[0]
+        return check(seq, method, timeout, case.get('entry', 'request'), pad, case.get('opts') or '')[0]
     except NeedMore:
         return [('more than six attempts' if len(seq) > CAP else 'retried a non-transient answer',
                  f'the request is sent again after the recorded sequence {seq}')]
@@ -520,8 +563,9 @@ def _slim(obs):
 def observe(case):
     method, timeout, pad = case.get('method', 'GET'), case.get('timeout'), case.get('pad', 0)
     if 'session' in case:
-        return [_slim(o) for o in drive_session([list(s) for s in case['session']], list(case['entries']), method, timeout, pad)]
+        return [_slim(o) for o in drive_session([list(s) for s in case['session']], list(case['entries']), method, timeout, pad,
+                                                opts=tuple(case.get('opts') or ['']))]
     try:
-        return _slim(drive(list(case['seq']), method, timeout, case.get('entry', 'request'), pad))
+        return _slim(drive(list(case['seq']), method, timeout, case.get('entry', 'request'), pad, case.get('opts') or ''))
     except NeedMore:
         return 'asks for more answers'
